@@ -1775,19 +1775,23 @@ def _inline_one(fn, refnames, params):
       if t == x or t in refnames or t in params or (t.startswith('__') and not t.startswith('__t_')) or store_count.get(t, 0) != 1 \
           or t in nested_names or t in comp_targets:
         continue
-      if sum(1 for n in own if isinstance(n, ast.Name) and n.id == t) != 2:
-        continue
       k1 = next((j for j in range(k2) if isinstance(body[j], ast.Assign) and len(body[j].targets) == 1
                  and isinstance(body[j].targets[0], ast.Name) and body[j].targets[0].id == t), None)
       if k1 is None:
         continue
       between = body[k1 + 1:k2]
+      # every occurrence of t lies between its definition and the copy (it may be read / filled there): it is x under another name
+      occ_t = [n for n in own if isinstance(n, ast.Name) and n.id == t]
+      in_span = {id(n) for st_ in body[k1:k2 + 1] for n in ast.walk(st_)}
+      if any(id(n) not in in_span for n in occ_t):
+        continue
       if any(isinstance(n, ast.Name) and n.id == x for st_ in between for n in ast.walk(st_)) or \
           any(isinstance(n, ast.Name) and n.id == x for n in ast.walk(body[k1].value)):
         continue
       if x in nested_names and any(isinstance(n, ast.Call) for st_ in between for n in ast.walk(st_)):
         continue      # a closure reading x could run in between
-      body[k1].targets[0].id = x
+      for n in occ_t:
+        n.id = x
       del body[k2]
       ast.fix_missing_locations(fn)
       return True
@@ -2106,6 +2110,13 @@ class _ExprForms(ast.NodeTransformer):
     return n
 
   def _compare(self, n):
+    # <constant> is None / <constant> is not None / None == <constant>: known
+    if len(n.ops) == 1 and isinstance(n.ops[0], (ast.Is, ast.IsNot, ast.Eq, ast.NotEq)) and isinstance(n.left, ast.Constant) \
+        and isinstance(n.comparators[0], ast.Constant) and (n.left.value is None or n.comparators[0].value is None) \
+        and not isinstance(n.left.value, (float, complex)) and not isinstance(n.comparators[0].value, (float, complex)):
+      same = (n.left.value is None) == (n.comparators[0].value is None)
+      self.n += 1
+      return ast.copy_location(ast.Constant(value=same if isinstance(n.ops[0], (ast.Is, ast.Eq)) else not same), n)
     # S[-2:-1] == [E]   ->   len(S) > 1 and S[-2] == E
     if len(n.ops) == 1 and isinstance(n.ops[0], ast.Eq) and isinstance(n.left, ast.Subscript) and isinstance(n.left.slice, ast.Slice) \
         and n.left.slice.step is None and n.left.slice.lower is not None and n.left.slice.upper is not None \
